@@ -1,6 +1,7 @@
 pub mod ep;
 pub mod foreign;
 pub mod model;
+pub mod pair;
 pub mod wire;
 
 use crate::ep::Ep;
